@@ -10,7 +10,7 @@ alternative encoding - the first two groups are replaced by
   * two chosen vertices never share a slot:        not (D[u] and D[v] and M[u,i] and M[v,i])   for u < v, all i,
   * a chosen vertex holds at most one slot:        not (D[v] and M[v,i] and M[v,j])            for i < j
 - so at most d vertices are chosen and they dominate the graph; V + V*d variables; the empty graph gives the empty formula.
-ASSUMED: unique_neighborhoods (see families_tiling.py), group allocation / call contracts (C11), force_* meanings, add_clause (C04).
+unique_neighborhoods is proved in families_tiling.py.  ASSUMED: group allocation / call contracts (C11), force_* meanings, add_clause (C04).
 """
 D_ = 'cnfgen/families/dominatingset.py'
 F_ = 'cnfgen/formula/cnf.py'
@@ -124,7 +124,7 @@ CONTRACTS = {
             'm_injective(a, {m}.gid) and m_nondecreasing(a, {m}.gid) and '
             'forall(lambda i, v: implies(1 <= i and i <= d and 1 <= v and v <= G.n, {HO}))) and '
             'forall(lambda v: implies(1 <= v and v <= G.n, {SL})) and '
-            'forall(lambda v: implies(1 <= v and v <= G.n, count(a, ishift(cnb(G.gid, v), {db}.off)) >= 1))))'.format(
+            'forall(lambda v: implies(1 <= v and v <= G.n, count(a, ishift(isorted(iapp(isnoc(inil, v), nbrs(G.gid, v))), {db}.off)) >= 1))))'.format(
                 SH=share('u', 'v', 'i'), ON=once('v', 'i', 'j'), HO=holds('i', 'v'), SL=slot('v'), m=MG, db=DB),
             'result._numvar == G.n + G.n * d',
             'result.cls == formula_class',
